@@ -20,6 +20,13 @@ EDITS = [
     ("hdf/src/hblocks.c", "    /* the position may have been moved past the end of the element */\n    if (length < 0)", "    /* the position may have been moved past the end of the element */\n    if (0 > length)"),
     ("mfhdf/hdfimport/hdfimport.c", "        in.is_hdf  = FALSE;\n        in.is_text = FALSE;\n        in.is_fp32 = FALSE;\n        in.is_fp64 = FALSE;\n", "        reset_input_flags(&in);\n"),
     ("mfhdf/hdfimport/hdfimport.c", "static int\nprocess(struct Options *opt)", "static void\nreset_input_flags(struct Input *in)\n{\n    in->is_hdf  = FALSE;\n    in->is_text = FALSE;\n    in->is_fp32 = FALSE;\n    in->is_fp64 = FALSE;\n}\n\nstatic int\nprocess(struct Options *opt)"),
+    ("hdf/src/vgp.c", "            v->nattach++;\n        }\n        else {\n            vg         = v->vg;", "            v->nattach += 1;\n        }\n        else {\n            vg         = v->vg;"),
+    ("hdf/src/hchunks.c", "        if ((ddims[ndims - 1].last_chunk_length - spb[ndims - 1]) * nt_size > (len - bytes_finished))\n            *chunk_size = len - bytes_finished; /* less than a chunk to write */\n        else                                    /* last full chunk */\n            *chunk_size = (ddims[ndims - 1].last_chunk_length - spb[ndims - 1]) * nt_size;",
+     "        if ((len - bytes_finished) < (ddims[ndims - 1].last_chunk_length - spb[ndims - 1]) * nt_size)\n            *chunk_size = len - bytes_finished; /* less than a chunk to write */\n        else                                    /* last full chunk */\n            *chunk_size = (ddims[ndims - 1].last_chunk_length - spb[ndims - 1]) * nt_size;"),
+    ("hdf/src/bitvect.c", "        if (base_elem < b->last_zero)\n            b->last_zero = base_elem;", "        if (b->last_zero > base_elem)\n            b->last_zero = base_elem;"),
+    ("hdf/src/hfile.c", "    if (!(access_rec->access & DFACC_WRITE))\n        HGOTO_ERROR(DFE_DENIED, FAIL);\n\n    file_rec = HAatom_object(access_rec->file_id);", "    if ((access_rec->access & DFACC_WRITE) == 0)\n        HGOTO_ERROR(DFE_DENIED, FAIL);\n\n    file_rec = HAatom_object(access_rec->file_id);"),
+    ("hdf/src/cskphuff.c", "            if (Hbitread(info->aid, 1, &bit) != 1) /* a failed read returns a short count */", "            if (1 != Hbitread(info->aid, 1, &bit)) /* a failed read returns a short count */"),
+    ("mfhdf/src/cdf.c", "                if ((*handlep)->vgid != 0)\n                    HGOTO_ERROR(DFE_READERROR, FAIL);", "                if ((*handlep)->vgid) {\n                    HGOTO_ERROR(DFE_READERROR, FAIL);\n                }"),
 ]
 bad = 0
 for rel, old, new in EDITS:
